@@ -346,6 +346,12 @@ class FixedArray
             if (PySlice_GetIndicesEx(slice,_length,&s,&e,&step,&sl) == -1) {
                 boost::python::throw_error_already_set();
             }
+            // An empty slice selects nothing, whatever start and end are (with a
+            // negative step, a start below -length is clamped to -1).
+            if (sl == 0) {
+                s = 0;
+                e = 0;
+            }
             // e can be -1 if the iteration is backwards with a negative slice operator [::-n] (n > 0).
             if (s < 0 || e < -1 || sl < 0) {
                 throw std::domain_error("Slice extraction produced invalid start, end, or length indices");
